@@ -430,7 +430,7 @@ func init() {
 	fw.Register(&fw.Prop{
 		ID:          "C12",
 		Level:       "exploration",
-		Rule:        "handler = a reference store whose primitives are executed by the Redis model; composites are the code under test. Enumerated exhaustively: GETRANGE/SUBSTR over value lengths 0..6 and the missing key x start,end in -9..9; ZREVRANGE over sizes 0..5 (distinct scores and ties) x start,stop in -7..7 x WITHSCORES; ZREVRANGEBYSCORE over sizes 0..4 x 8x8 bounds incl. exclusive x 7 LIMITs x WITHSCORES; counters over 19 stored values (missing, non-integers incl. non-canonical forms such as 007, +5, -0, int64 boundaries) x INCR/DECR/INCRBY/DECRBY x 11 deltas; APPEND/STRLEN/PING/ECHO over 13 nasty strings (pairs); MSET/MSETNX/MGET over all 1..3-pair lists of a 3-key pool x 4 presets x all 6 map-iteration orders; hashes of 0..3 fields x read composites, HMSET x map orders; cardinalities of sizes 0..3; all programs of length <=3 (thorough 5) over 34 commands from the initial state (so every state reachable by shorter programs is a starting state); a composite write (13 forms) and read-back after each of 24 conditional / option-carrying commands (SETNX, HSETNX, MSETNX, SET NX|XX|GET, ZADD NX|XX|GT|CH|INCR, counters, ...) on a populated store; CONFIG SET (1..3 pairs, repeated keys, second SET) then CONFIG GET (repeats, unknown keys) x map orders. Oracle: reply value tree (type-strict; errors compared as 'is an error') and final store contents equal the model's. Pair lists ending with a key without its value (MSET, MSETNX, HMSET) are rejected as a whole.",
+		Rule:        "handler = a reference store whose primitives are executed by the Redis model; composites are the code under test. Enumerated exhaustively: GETRANGE/SUBSTR over value lengths 0..6 and the missing key x start,end in -9..9; ZREVRANGE over sizes 0..5 (distinct scores and ties) x start,stop in -7..7 x WITHSCORES; ZREVRANGEBYSCORE over sizes 0..4 x 8x8 bounds incl. exclusive x 7 LIMITs x WITHSCORES; counters over 19 stored values (missing, non-integers incl. non-canonical forms such as 007, +5, -0, int64 boundaries) x INCR/DECR/INCRBY/DECRBY x 11 deltas; APPEND/STRLEN/PING/ECHO over 13 nasty strings (pairs); MSET/MSETNX/MGET over all 1..3-pair lists of a 3-key pool x 4 presets x all 6 map-iteration orders; hashes of 0..3 fields x read composites, HMSET x map orders; cardinalities of sizes 0..3; all programs of length <=3 (thorough 5) over 34 commands from the initial state (so every state reachable by shorter programs is a starting state); a composite write (13 forms) and read-back after each of 24 conditional / option-carrying commands (SETNX, HSETNX, MSETNX, SET NX|XX|GET, ZADD NX|XX|GT|CH|INCR, counters, ...) on a populated store; CONFIG SET (1..3 pairs, repeated keys, second SET) then CONFIG GET (repeats, unknown keys) x map orders. Oracle: reply value tree (type-strict; errors compared as 'is an error') and final store contents equal the model's. Pair lists ending with a key without its value (MSET, MSETNX, HMSET) are rejected as a whole. Lengths and ranges of values with multi-byte and invalid UTF-8 sequences count bytes.",
 		Assumptions: []string{"the Redis model in /verif/model is the reference", "random programs beyond the bound are not claimed"},
 		Run:         c12Run,
 		Replay:      c12Replay,
